@@ -244,11 +244,11 @@ func (h *c17Hist) judgeOne(cmd *c17Cmd, result string, pre, post c17State, scope
 			return h.witness(rule, cmd, result, pre, post, map[string]any{"channel": ch, "pre_channel_meta": pm, "post_channel_meta": qm})
 		}
 		if (leaderChanged && cmd.Kind != c17KCommit) || (isrChanged && cmd.Kind != c17KPromote) {
-			h.violate("cutover-effect-by-other-command:"+kind+cross, w("leader/ISR change only through the proof-checked cutover commands"))
+			h.violate(c17Sig("cutover-effect-by-other-command", kind, cross), w("leader/ISR change only through the proof-checked cutover commands"))
 			continue
 		}
 		if !preOK || cmd.Task.Ch != ch {
-			h.violate("cutover-applied-without-task-on-channel:"+kind+cross, w("cutover needs the task's own drain proof"))
+			h.violate(c17Sig("cutover-applied-without-task-on-channel", kind, cross), w("cutover needs the task's own drain proof"))
 			continue
 		}
 		h.sawCutover = true
@@ -260,12 +260,12 @@ func (h *c17Hist) judgeOne(cmd *c17Cmd, result string, pre, post c17State, scope
 			h.cutoverDone[cmd.Task] = kind
 		}
 		if mm := c17ProofMismatch(preT, pm); len(mm) > 0 {
-			h.violate("cutover-applied-with-stale-proof:"+kind+":"+mm[0]+cross,
+			h.violate(c17Sig("cutover-applied-with-stale-proof", kind+":"+mm[0], cross),
 				h.witness("proof must equal current fence version / channel epoch / leader epoch / leader", cmd, result, pre, post,
 					map[string]any{"channel": ch, "mismatching_proof_fields": mm}))
 		}
 		if !c17OwnsFence(preT, pm) {
-			h.violate("cutover-applied-by-non-fence-owner:"+kind+cross, w("cutover only by the task owning the channel write fence"))
+			h.violate(c17Sig("cutover-applied-by-non-fence-owner", kind, cross), w("cutover only by the task owning the channel write fence"))
 		}
 	}
 	if isCutover && result == "ok" && effect {
@@ -301,7 +301,7 @@ func (h *c17Hist) judgeOne(cmd *c17Cmd, result string, pre, post c17State, scope
 		r.Count("rule4.commands_seen_with_foreign_fence", 1)
 		qm, ok2 := post.Metas[ch]
 		if !ok2 || !c17FenceEq(pm, qm) {
-			h.violate("foreign-fence-modified:"+kind+cross,
+			h.violate(c17Sig("foreign-fence-modified", kind, cross),
 				h.witness("no command overwrites or clears another task's fence", cmd, result, pre, post,
 					map[string]any{"channel": ch, "fence_owner": pm.WriteFenceToken, "pre_channel_meta": pm, "post_channel_meta": qm}))
 		} else if result != "ok" {
@@ -329,7 +329,7 @@ func (h *c17Hist) judgeOne(cmd *c17Cmd, result string, pre, post c17State, scope
 			continue
 		}
 		if pt.FenceToken != qt.FenceToken || pt.FenceVersion != qt.FenceVersion || pt.FenceUntilMS != qt.FenceUntilMS {
-			h.violate("foreign-task-fence-modified:"+kind+cross,
+			h.violate(c17Sig("foreign-task-fence-modified", kind, cross),
 				h.witness("no command overwrites or clears another task's fence", cmd, result, pre, post, map[string]any{"other_task_pre": pt, "other_task_post": qt}))
 		}
 	}
@@ -350,9 +350,12 @@ func (h *c17Hist) judgeOne(cmd *c17Cmd, result string, pre, post c17State, scope
 // history – must never become Aborted, by whatever command. Three signatures:
 //
 //	abort-applied-after-cutover:phaseN            AbortChannelMigration accepted in a post-cutover pre-state
-//	aborted-status-written-after-cutover:<cmd>    another command (Advance/Claim carry any status) wrote Aborted
-//	aborted-after-observed-cutover:phase-rewound-by-<cmd>:<cmd>
+//	aborted-status-written-after-cutover          another command (Advance/Claim carry any status) wrote Aborted
+//	aborted-after-observed-cutover:phase-rewound-by-<cmd>
 //	                                              the row had first been moved back to a pre-cutover phase by <cmd>
+//
+// (the command that finally wrote Aborted is in the witness; signatures stay
+// few so that the kit's 10 witness slots are never exhausted by one family)
 func (h *c17Hist) judgeAborted(mode c17JudgeMode, cmds []c17Cmd, results []string, pre, post c17State) {
 	for ref, p := range pre.Tasks {
 		q, ok := post.Tasks[ref]
@@ -377,13 +380,13 @@ func (h *c17Hist) judgeAborted(mode c17JudgeMode, cmds []c17Cmd, results []strin
 		} else if len(cmds) > 0 {
 			cmd = &cmds[len(cmds)-1]
 		}
-		extra := map[string]any{"task_pre": p, "task_post": q, "observed_cutover": h.cutoverDone[ref], "batch": c17BatchDesc(cmds)}
+		extra := map[string]any{"task_pre": p, "task_post": q, "observed_cutover": h.cutoverDone[ref], "aborted_by": what, "batch": c17BatchDesc(cmds)}
 		switch {
 		case byRow && what == "abort":
 			h.violate(fmt.Sprintf("abort-applied-after-cutover:phase%d", p.Phase),
 				h.witness("a committed/promoted/completed task can no longer be aborted", cmd, res, pre, post, extra))
 		case byRow:
-			h.violate("aborted-status-written-after-cutover:"+what,
+			h.violate("aborted-status-written-after-cutover",
 				h.witness("a committed/promoted/completed task can no longer be aborted (status rewritten to Aborted)", cmd, res, pre, post, extra))
 		default:
 			by := h.rewoundBy[ref]
@@ -391,7 +394,7 @@ func (h *c17Hist) judgeAborted(mode c17JudgeMode, cmds []c17Cmd, results []strin
 				by = "unknown"
 			}
 			extra["phase_rewound_by"] = by
-			h.violate("aborted-after-observed-cutover:phase-rewound-by-"+by+":"+what,
+			h.violate("aborted-after-observed-cutover:phase-rewound-by-"+by,
 				h.witness("a task whose commit/promote was observed earlier became Aborted after its phase was moved back", cmd, res, pre, post, extra))
 		}
 		return
@@ -445,7 +448,7 @@ func (h *c17Hist) violate(sig string, witness any) {
 	c17ViolationCases.Unlock()
 	h.r.Count("violations."+sig, 1)
 	h.dead = true
-	if seen >= 2 {
+	if seen >= 1 {
 		// The kit keeps 10 witnesses in total: never let one signature (e.g. a
 		// known finding) crowd out a different one. Totals are in the counters.
 		return
@@ -453,4 +456,14 @@ func (h *c17Hist) violate(sig string, witness any) {
 	// histories run on several workers: re-attribute the kit's "current case"
 	h.r.BeginCase(h.caseIdx, "history (violation)")
 	h.r.Violation(sig, witness)
+}
+
+// c17Sig builds "<rule>:<detail>"; a command whose runtime guard names another
+// channel than its task guard collapses to "<rule>:cross-channel" (one family,
+// whatever the command kind).
+func c17Sig(rule, detail, cross string) string {
+	if cross != "" {
+		return rule + cross
+	}
+	return rule + ":" + detail
 }
